@@ -160,6 +160,12 @@ def binary_sort_keys(g):
     for fw in (True, False):
         ops.append(dict(op="query", client="c", table="tbl", keycond="h = :h", names={}, values={":h": S("p")}, forward=fw))
     ops.append(dict(op="query", client="c", table="tbl", keycond="h = :h AND r > :r", names={}, values={":h": S("p"), ":r": {"B": "\x09"}}))
+    # prefixes of binary keys: the operand also occurs at later offsets of other keys ([2] in [1 2], [3 2 128], [128 2])
+    for b_ in r.sample(["\x01\x02", "\x02\x01", "\x02\x03", "\x03\x02\x80", "\x80\x02", "\x02"], r.randrange(3, 7)):
+        ops.append(dict(op="put", client="c", table="tbl", item={"h": S("q"), "r": {"B": b_}, "c": {"B": b_}}))
+    for pre in r.sample(["\x02", "\x01", "\x80", "\x02\x01", "\x03\x02"], 2):
+        ops.append(dict(op="query", client="c", table="tbl", keycond="h = :h AND begins_with(r, :p)", names={}, values={":h": S("q"), ":p": {"B": pre}}))
+        ops.append(dict(op="scan", client="c", table="tbl", filter="begins_with(c, :p)", names={}, values={":p": {"B": pre}}))
     return dict(name="tbl", schema=dict(hash=("h", "S"), range=("r", "B")), indexes=[]), ops
 
 
@@ -170,6 +176,17 @@ def query_script(g):
         return binary_sort_keys(g)[1]
     if r.random() < 0.25:
         t, ops = interleaved_partitions(g)
+    elif k0 < 0.25:
+        # the index arrives when the table already holds items whose index-key order differs from their primary-key order;
+        # it is read at once, before any write re-sorts it
+        t, ops = g.create_ops("c", "tbl", style="helper")
+        ops = ops[:1]; t["indexes"] = []
+        ops += populate(g, t, nmin=3, nmax=8)
+        ops.append(dict(op="add_index", client="c", table="tbl", index="gix", hash="g", range=r.choice(["", "f"])))
+        t["indexes"].append(dict(name="gix", hash="g", range=ops[-1]["range"] or None))
+        for fw in (True, False):
+            ops.append(dict(op="query", client="c", table="tbl", index="gix", keycond="g = :h", names={}, values={":h": S(r.choice(gen.IDXVALS))}, forward=fw))
+        ops.append(dict(op="scan", client="c", table="tbl", index="gix"))
     else:
         t, ops = g.create_ops("c", "tbl")
         ops += populate(g, t)
@@ -401,6 +418,13 @@ def page_script(g):
             # an attempt to re-type a key attribute of the table (the AddIndex helper declares strings): refused, and the
             # LastEvaluatedKeys of the table keep being accepted as start keys
             ops.append(dict(op="add_index", client="c", table="tbl", index="byk", hash="g", range=kattr[0]))
+        if t["indexes"] and r.random() < 0.35:
+            # refused updates that would give an index key attribute the wrong type: the items stay where they were in
+            # the index, and the keys the pages end on keep being accepted
+            ia = r.choice(t["indexes"])["hash"]
+            for _ in range(r.randrange(1, 4)):
+                ops.append(dict(op="update", client="c", table="tbl", key=g.key_of(t["schema"], exact=True), expr="SET %s = :n" % ia,
+                                names={}, values={":n": N("5")}))
     base = dict(client="c", table="tbl")
     for _ in range(r.randrange(2, 5)):
         op = read_op(g, t, paged=True)
@@ -636,6 +660,22 @@ def values_script(g):
     ops.append(dict(op="scan", client="c", table="tbl"))
     ops.append(dict(op="query", client="c", table="tbl", keycond="h = :h", names={}, values={":h": S("k0")}))
     ops.append(dict(op="batch_get", client="c", requests={"tbl": [{"h": S("k0")}, {"h": S("k1")}]}))
+    if r.random() < 0.5:
+        # the items come back whole also on pages that end with a LastEvaluatedKey
+        lim = r.randrange(1, 3)
+        rd = r.choice([dict(op="scan", client="c", table="tbl", limit=lim),
+                       dict(op="query", client="c", table="tbl", keycond="h = :h", names={}, values={":h": S("k%d" % r.randrange(2))}, limit=1)])
+        ops.append(rd)
+        for _ in range(3):
+            nxt = json.loads(json.dumps(rd)); nxt["esk"] = {"$lek": len(ops) - 1}
+            ops.append(nxt)
+    if r.random() < 0.5:
+        # a second table stores OTHER values under the same keys: a batch read over both answers each table with its own
+        ops.append(dict(op="add_table", client="c", table="tb2", hash="h", range=""))
+        for i in range(r.randrange(1, 4)):
+            ops.append(dict(op="put", client="c", table="tb2", item={"h": S("k%d" % i), "a": g.value(2), "z": S("second")}))
+        ops.append(dict(op="batch_get", client="c", requests={"tbl": [{"h": S("k%d" % i)} for i in range(r.randrange(1, 4))],
+                                                              "tb2": [{"h": S("k%d" % i)} for i in range(r.randrange(1, 4))]}))
     return ops
 
 
